@@ -279,6 +279,12 @@ package aper
 //@ ensures refuse: vc.Imp(lowerBoundPtr != nil && (value < *lowerBoundPtr || (upperBoundPtr != nil && value > *upperBoundPtr && !extensive)), result != nil)
 //@ ensures einv: vcEInv(pd) && vcBitLen(pd) >= b0
 //@ ensures fixed: vc.Imp(lowerBoundPtr != nil && upperBoundPtr != nil && *lowerBoundPtr == *upperBoundPtr && value == *lowerBoundPtr && !extensive, result == nil && vcBitLen(pd) == b0)
+// Octet counts of the forms with a length octet (X.691 10.8 unconstrained: minimum octets of the
+// 2's complement of the value; 12.1 an out-of-root value of an extensible type is encoded as
+// unconstrained after the extension bit; 10.7 semi-constrained: minimum octets of the offset).
+//@ ensures unc: vc.Imp(lowerBoundPtr == nil, result == nil && vcBitLen(pd) == (b0+7)&^7+8+8*uint64(per.MinOctetsSigned(value)))
+//@ ensures extunc: vc.Imp(lowerBoundPtr != nil && upperBoundPtr != nil && extensive && value > *upperBoundPtr, result == nil && vcBitLen(pd) == (b0+1+7)&^7+8+8*uint64(per.MinOctetsSigned(value)))
+//@ ensures semi: vc.Imp(lowerBoundPtr != nil && upperBoundPtr == nil && value >= *lowerBoundPtr, result == nil && vcBitLen(pd) == (b0+7)&^7+8+8*uint64(per.MinOctetsUnsigned(uint64(value-*lowerBoundPtr))))
 //@ assigns &pd.bytes, &pd.bitsOffset
 //@ loop rawLength unroll 10
 //@ loop byteLen unroll 10
